@@ -377,6 +377,36 @@ func init() {
 		}
 		return fmt.Sprintf(conc(a[0]), out...)
 	}
+	// fmt.Fprintf / Fprint / Fprintln: format as above, then WriteString on the
+	// dynamic writer (bytes.Buffer, strings.Builder or an interpreted type)
+	fwrite := func(fr *frame, w value, s value) value {
+		it, ok := w.(iface)
+		if !ok || it.t == nil {
+			panic(unsupported{"fmt.Fprint* to a nil or unmodelled writer"})
+		}
+		if types.NewMethodSet(it.t).Lookup(nil, "WriteString") != nil {
+			if f := fr.i.prog.LookupMethod(it.t, nil, "WriteString"); f != nil {
+				if in := intrinsics[f.String()]; in != nil {
+					in(fr, []value{it.v, s})
+					return tuple{len(bytesOf(s)), iface{}}
+				}
+				if f.Blocks != nil && fr.i.interpreted(f) {
+					call(fr.i, fr, 0, f, []value{it.v, s})
+					return tuple{len(bytesOf(s)), iface{}}
+				}
+			}
+		}
+		panic(unsupported{"fmt.Fprint* to a writer without a modelled WriteString: " + it.t.String()})
+	}
+	intrinsics["fmt.Fprintf"] = func(fr *frame, a []value) value {
+		return fwrite(fr, a[0], intrinsics["fmt.Sprintf"](fr, a[1:]))
+	}
+	intrinsics["fmt.Fprint"] = func(fr *frame, a []value) value {
+		return fwrite(fr, a[0], intrinsics["fmt.Sprint"](fr, a[1:]))
+	}
+	intrinsics["fmt.Fprintln"] = func(fr *frame, a []value) value {
+		return fwrite(fr, a[0], intrinsics["fmt.Sprintln"](fr, a[1:]))
+	}
 	// logging is an empty sink, but the arguments are rendered (String methods run)
 	logSink := func(fr *frame, a []value) value {
 		if len(a) > 1 {
